@@ -13,3 +13,11 @@ pub(crate) mod c05 {
     use super::super::*;
     include!(concat!(env!("LIBP2P_VERIF"), "/units/C05/check_peer_id.rs"));
 }
+
+// Pool bookkeeping fragments (C02 part 2): mounted in the shim tree only (the
+// generated mount file is empty in the plain tree).
+pub(crate) mod c02p {
+    #[allow(unused_imports)]
+    use super::super::*;
+    include!(concat!(env!("LIBP2P_VERIF_GEN"), "/C02/pool_mount.rs"));
+}
